@@ -18,6 +18,7 @@ RULE = (
     "library, by a second write() of the same mesh when the first one was refused for a conflict, and (size-based chop) by a write() after the written mesh was stretched x2; expected verdict from "
     "the edge-family union-find model. non-trivial = the blocks share at least one edge "
     "and at least one direction is chopped"
+    " Variants: two sections with identical arguments, blocks of very different sizes (non-uniform lattice spacing), chops arriving through a chop - unchop - chop history."
 )
 ASSUMPTIONS = [
     "unit-cube lattice cells (topology decides count agreement; geometry variation belongs to C04)",
